@@ -125,3 +125,32 @@ func jsonString(v interface{}) string {
 }
 
 var _ = fmt.Sprint
+
+
+// astAudit runs the bounded audit of the trusted hclsyntax AST facts (bin/astaudit) and returns its report.
+func (r *checkRun) astAudit() map[string]interface{} {
+	bin := filepath.Join(r.root, "bin", "astaudit")
+	if _, err := os.Stat(bin); err != nil {
+		return map[string]interface{}{"error": "bin/astaudit not built"}
+	}
+	cmd := exec.Command(bin, filepath.Join(r.root, "trusted", "base.spec"))
+	b, _ := cmd.Output()
+	out := map[string]interface{}{}
+	// the report is the JSON object at the end of the output
+	if i := strings.LastIndex(string(b), "\n{"); i >= 0 {
+		json.Unmarshal(b[i+1:], &out)
+	} else {
+		json.Unmarshal(b, &out)
+	}
+	var refuted []string
+	for _, l := range strings.Split(string(b), "\n") {
+		if strings.HasPrefix(l, "REFUTED ") {
+			refuted = append(refuted, l)
+		}
+	}
+	if len(refuted) > 0 {
+		out["refutations"] = refuted
+	}
+	out["what"] = "bounded audit of the trusted AST facts of trusted/base.spec on a corpus of native and JSON configurations, all their prefixes and single-token deletions; refutes, never proves"
+	return out
+}
